@@ -736,8 +736,13 @@ pub fn render_file(p: &Pkg, f: usize) -> String {
           cx.name_of(r, false, &mut imports.borrow_mut())
         });
         let generics = if v % 4 == 0 { "<T = unknown>" } else { "" };
+        // decorators (class, method, property, accessor, parameter), auto-accessors and static blocks:
+        // all implementation detail that the transform has to remove
+        let deco = v % 5 == 1;
+        let dc = |s: &'static str| if deco { s } else { "" };
         let mut s = format!(
-          "{}{}class {}{}",
+          "{}{}{}class {}{}",
+          dc("@deco\n@decoWith(\"class\")\n"),
           ex,
           abs,
           d.name.as_str(),
@@ -756,9 +761,18 @@ pub fn render_file(p: &Pkg, f: usize) -> String {
           Some(Dirty::UntypedClassProp) => s.push_str("  second = compute(1);\n"),
           _ => s.push_str(&format!("  protected second?: {};\n", t(1))),
         }
-        s.push_str("  literal = \"text\";\n");
-        s.push_str("  private hidden: Map<string, number> = new Map();\n");
+        s.push_str(&format!("  {}literal = \"text\";\n", dc("@deco ")));
+        s.push_str(&format!("  {}private hidden: Map<string, number> = new Map();\n", dc("@decoWith(1) ")));
         s.push_str("  #reallyHidden = 1;\n");
+        if v % 7 == 2 || deco {
+          s.push_str(&format!("  {}accessor auto: {} = undefined as any;\n", dc("@deco "), t(1)));
+          s.push_str("  static accessor sauto = 1;\n");
+          s.push_str("  private accessor pauto: number = compute(2) as number;\n");
+          s.push_str("  accessor #hauto = 1;\n");
+        }
+        if v % 3 == 1 {
+          s.push_str(&format!("  static {{\n    {}.count = compute(3) as number;\n  }}\n", d.name));
+        }
         if v % 2 == 0 {
           s.push_str(&format!(
             "  constructor(public param: {}, private other: number = 1, third?: {}, public level: number | string = 1, readonly tag: \"a\" | \"b\" = \"a\") {{\n    {}\n{}  }}\n",
@@ -775,7 +789,9 @@ pub fn render_file(p: &Pkg, f: usize) -> String {
           _ => format!(": {}", t(1)),
         };
         s.push_str(&format!(
-          "  method(arg: {}, opt?: string){} {{\n    return compute(this.#reallyHidden){};\n  }}\n",
+          "  {}method({}arg: {}, opt?: string){} {{\n    return compute(this.#reallyHidden){};\n  }}\n",
+          dc("@decoWith({ kind: \"method\" })\n  "),
+          dc("@deco "),
           t(0),
           mret,
           if d.dirty == Some(Dirty::MissingMethodReturn) { "" } else { " as any" }
@@ -787,7 +803,7 @@ pub fn render_file(p: &Pkg, f: usize) -> String {
         }
         s.push_str(&format!("  over(a: {}, b: number): {};\n", t(0), t(1)));
         s.push_str("  over(a: any, b?: any): any {\n    return a;\n  }\n");
-        s.push_str(&format!("  get prop(): {} {{\n    return undefined as any;\n  }}\n", t(2)));
+        s.push_str(&format!("  {}get prop(): {} {{\n    return undefined as any;\n  }}\n", dc("@deco "), t(2)));
         s.push_str(&format!("  set prop(value: {}) {{\n    this.hidden.clear();\n  }}\n", t(2)));
         s.push_str(&format!("  static create<U>(input: U): {} | U {{\n    return input;\n  }}\n", t(0)));
         s.push_str("  private secret(x: number): number {\n    return x + this.#reallyHidden;\n  }\n");
@@ -970,6 +986,9 @@ pub fn render_file(p: &Pkg, f: usize) -> String {
     out.push('\n');
   }
   out.push_str("function compute(x: number): unknown {\n  return [x, Date.now()];\n}\n");
+  if body.contains("@deco") {
+    out.push_str("function deco(...args: any[]): any {\n  return compute(args.length);\n}\nfunction decoWith(o: unknown): (...args: any[]) => any {\n  return deco;\n}\n");
+  }
   out.push_str(&body);
   for r in &file.reexports {
     match r {
@@ -1087,6 +1106,17 @@ pub fn feature_counts(p: &Pkg) -> BTreeMap<&'static str, u64> {
       if let Some(x) = d.dirty {
         let _ = x;
         *out.entry("feature:dirty-declaration").or_default() += 1;
+      }
+      if matches!(d.kind, DK::Class | DK::AbstractClass) {
+        if d.variant % 5 == 1 {
+          *out.entry("feature:decorated-class").or_default() += 1;
+        }
+        if d.variant % 7 == 2 || d.variant % 5 == 1 {
+          *out.entry("feature:auto-accessors").or_default() += 1;
+        }
+        if d.variant % 3 == 1 {
+          *out.entry("feature:static-block").or_default() += 1;
+        }
       }
     }
   }
